@@ -22,6 +22,17 @@ CLAIMED['C20'] = (
     'grid shapes are enumerated (stated), all continuous quantities are solver-quantified; doubles as exact reals; '
     'numpy object arrays carry the proxies through numpy\'s own @, mean, diff, diag.',
     'DESIGN.md §4 C20', TECH)
+CLAIMED['C09'] = (
+    'ionisation_balance.py is executed from source on object arrays. balance_point: for Z<=4 (quick) / <=10 (thorough), '
+    'with and without CX donor, every entry of the assembled system is compared with the documented rate equations, an '
+    'exact solution inside the (0,n_e) box is exhibited and verified by the solver, and from the lsq_linear contract '
+    '(zero residual inside the box) z3 proves fractions in [0,1], sum 1 and the neighbour balance. entry_points: the '
+    'public entry points (scalar / array / Function1D / Function2D inputs, with / without donor) are run with the point '
+    'solver replaced by an uninterpreted function of its arguments and shown to forward n_e, t_e, n_D and the CX table '
+    'consistently, to multiply by the element density, and to match neutrality as documented.',
+    'scipy lsq_linear by contract; rates are positive symbols; Z and profile length are concrete per job (stated bounds); '
+    'interpolators / map3d beyond node values are outside the claim.',
+    'DESIGN.md §4 C09', TECH)
 NOT_YET = {}
 props = [json.loads(l) for l in open(os.path.join(HERE, 'properties.jsonl'))]
 checks, na = [], []
